@@ -181,6 +181,21 @@ def run(m: Model, r: Report, tier: str) -> None:
             f"registry key `{reg_key}` vs lookup key `{look_key}`: the template would list options under keys the loader does not read", loc=gb.loc)
     env_key, re_ = key_defs(fe, le, re_)
     r.check(env_key == ["f'GALLIA_{NAME.upper()}'"], "R4", f"{fe.qualname}#env-name", f"environment variable name is {env_key}", loc=fe.loc)
+    # every option with a config section ends up in the registry the template is printed from: on every path (including the handler
+    # that re-creates the write-protected registry) a store of the key completes before the next field is looked at
+    from sa.cfg import CFG as _CFG
+    gi = _CFG(isc.node)
+    key_nodes = [n.id for n in gi.nodes.values() if n.kind == "stmt" and isinstance(n.ast, ast.Assign) and isinstance(n.ast.targets[0], ast.Name) and n.ast.targets[0].id in
+                 {k for k, v in ri.items() if v == "KEY"}]
+    store_nodes = {n.id for n in gi.nodes.values() if n.kind == "stmt" and isinstance(n.ast, ast.Assign) and isinstance(n.ast.targets[0], ast.Subscript)
+                   and "__config_registry" in ast.unparse(n.ast.targets[0].value) and m.mtext(isc, n.ast.targets[0].slice, ri) == "KEY"}
+    heads = {n.id for n in gi.nodes.values() if n.kind == "loop" and n.ast is li} | {gi.exit_return}
+    if len(key_nodes) != 1 or not store_nodes:
+        raise AnalysisError(f"{isc.qualname}: registry key computation / store not found")
+    okreg, preg = gi.must_pass(key_nodes[0], store_nodes, heads, completed=True)
+    r.check(okreg, "R4", f"{isc.qualname}#always-registered",
+            "an option can leave the registration block without having been stored in the registry (the template then does not list a key the file lookup reads): "
+            + " -> ".join(repr(gi.nodes[p_]) for p_ in preg[-4:]), loc=isc.loc)
     tp = m.require_function(f"{CLI}.template")
     ts = ast.unparse(tp.node)
     r.check("GalliaBaseModel.registry().items()" in ts and "'.'.join(tmp[:-1])" in ts and "tmp[-1]" in ts and "f'[{group}]\\n'" in ts, "R4", f"{tp.qualname}#groups",
@@ -218,6 +233,14 @@ def run(m: Model, r: Report, tier: str) -> None:
     cfg_exprs = [ast.unparse(kw.value) for n in ast.walk(init.node) if isinstance(n, ast.Call) and ast.unparse(n.func) == "RunMeta" for kw in n.keywords if kw.arg == "config"]
     r.check(cfg_exprs == ["json.loads(config.model_dump_json())"], "R5", f"{init.qualname}#unfiltered-dump",
             f"META.json config is {cfg_exprs}: options left at a per-process computed default (e.g. a random seed) must be stored too", loc=init.loc)
+    dumps_ = []
+    for fq in ("gallia.command.base.BaseCommand.__init__", "gallia.db.handler.DBHandler.insert_run_meta"):
+        f_ = m.require_function(fq)
+        cs_ = [n for n in ast.walk(f_.node) if isinstance(n, ast.Call) and isinstance(n.func, ast.Attribute) and n.func.attr in ("model_dump_json", "model_dump")]
+        dumps_.append((fq, cs_))
+        r.check(len(cs_) == 1 and not cs_[0].args and not cs_[0].keywords, "R5", f"{fq}#full-dump",
+                f"the stored configuration is dumped with {[ast.unparse(c) for c in cs_]}: both copies (META.json and run_meta.config in the database, which `script rerun --id` reads) "
+                "must contain every option; exclude_* drops options left at a default that is computed per process", loc=f_.loc)
     rer = m.require_function("gallia.commands.script.rerun.Rerunner.main")
     r.check("gallia_class.CONFIG_TYPE(**config)" in ast.unparse(rer.node), "R5", f"{rer.qualname}#reinstantiate", "the rerunner must re-instantiate CONFIG_TYPE from the stored mapping", loc=rer.loc)
 
